@@ -262,7 +262,10 @@ def malform(rng, patch):
     elif k < 0.8:
         j = rng.randrange(len(lines))
         lines[i], lines[j] = lines[j], lines[i]
-    elif k < 0.9:
+    elif k < 0.87:
+        # a stray line beginning with @ (ends the inner loop: the outer loop must then reject it as a header)
+        lines.insert(max(i, 1), rng.choice(['@\n', '@x\n', '@ -1 +1 @\n', '@@\n', '@@ -1 +1\n', '@a\n\\ No newline at end of file\n']))
+    elif k < 0.93:
         lines.insert(i, rng.choice(['\\ No newline at end of file\n', '\\\n', 'x\n', '@\n', '@@\n', ' \n', '+\n', '-\n', '---\n', '+++ z\n', '\n']))
     else:
         lines = lines[:i]
@@ -392,7 +395,7 @@ def run(ctx: lib.Ctx) -> None:
 
     # ---- 3. malformed stream (A only)
     base = [m for m in apply_meta if m[4] in ('difflib', 'script') and m[1]]
-    for _ in range(ctx.n(130, 3000)):
+    for _ in range(ctx.n(170, 3000)):
         src, patch, rv, _, _ = rng.choice(base)
         bad = malform(rng, patch)
         if rng.random() < 0.2:
